@@ -45,6 +45,9 @@ type c07Run struct {
 	maxFrame int
 	trace    []string
 	blocked  bool
+	sizes    []int // per upload (configured ones, then late ones)
+	kinds    []int
+	late     int
 }
 
 func (x *c07Run) viol(rule, detail string) *fw.Violation {
@@ -81,14 +84,14 @@ func (x *c07Run) account() (string, string) {
 
 func (x *c07Run) stuck() string {
 	for i, id := range x.ids {
-		left := x.cfg.Sizes[i] - x.l.sent[id]
+		left := x.sizes[i] - x.l.sent[id]
 		st := x.srv.Streams[id]
 		done := st != nil && st.EndStream > 0
 		if left > 0 && x.l.stream[id] > 0 && x.l.conn > 0 {
 			return fmt.Sprintf("upload on stream %d has %d unsent bytes, stream window %d, connection window %d, and nothing more is sent", id, left, x.l.stream[id], x.l.conn)
 		}
 		if left == 0 && !done {
-			return fmt.Sprintf("upload on stream %d: all %d bytes sent but END_STREAM never arrived", id, x.cfg.Sizes[i])
+			return fmt.Sprintf("upload on stream %d: all %d bytes sent but END_STREAM never arrived", id, x.sizes[i])
 		}
 		if left > 0 {
 			x.blocked = true
@@ -144,6 +147,7 @@ func newC07(cfg c07Cfg) (*c07Run, *fw.Violation) {
 		x.calls = append(x.calls, h.Go(c07Spec(i, size, cfg.Kind[i])))
 		x.l.open(id)
 		x.ids = append(x.ids, id)
+		x.sizes, x.kinds = append(x.sizes, size), append(x.kinds, cfg.Kind[i])
 		id += 2
 	}
 	if r, d := x.account(); r != "" {
@@ -184,6 +188,10 @@ func (x *c07Run) menu() []string {
 		}
 	}
 	m = append(m, "othersettings")
+	// an upload that starts now, after whatever the server has said so far (at most two)
+	if x.late < 2 {
+		m = append(m, "late 6 0", "late 6 2")
+	}
 	return m
 }
 
@@ -214,6 +222,18 @@ func (x *c07Run) apply(ev string) *fw.Violation {
 			return x.viol(r, d)
 		}
 		x.maxFrame = a
+	case strings.HasPrefix(ev, "late"):
+		fmt.Sscanf(ev, "late %d %d", &a, &b)
+		i := len(x.ids)
+		id := uint32(3)
+		if i > 0 {
+			id = x.ids[i-1] + 2
+		}
+		x.late++
+		x.calls = append(x.calls, h.Go(c07Spec(i, a, b)))
+		x.l.open(id)
+		x.ids = append(x.ids, id)
+		x.sizes, x.kinds = append(x.sizes, a), append(x.kinds, b)
 	case ev == "othersettings":
 		h.Send(0, peer.Settings(peer.Setting{ID: peer.SHeaderTableSize, Val: 4096}, peer.Setting{ID: peer.SMaxConcurrentStreams, Val: 50}))
 	}
@@ -249,7 +269,7 @@ func (x *c07Run) finishAll() *fw.Violation {
 		}
 	}
 	for i, id := range x.ids {
-		spec := c07Spec(i, x.cfg.Sizes[i], x.cfg.Kind[i])
+		spec := c07Spec(i, x.sizes[i], x.kinds[i])
 		if d, cls := checkSentRequest(spec, x.srv.Streams[id]); d != "" {
 			return x.viol("upload-incomplete "+cls, fmt.Sprintf("after every window was opened, upload on stream %d: %s", id, d))
 		}
@@ -300,6 +320,7 @@ func runC07(c *fw.Ctx) {
 	cfgs := []c07Cfg{
 		{0, []int{3}, []int{0}}, {1, []int{6}, []int{1}}, {5, []int{6, 3}, []int{0, 2}}, {1, []int{3, 1}, []int{2, 0}},
 		{5, []int{16385}, []int{0}}, {0, []int{0, 3}, []int{2, 1}}, {70000, []int{6, 6}, []int{0, 0}},
+		{5, nil, nil}, {70000, nil, nil}, // nothing in flight at first: SETTINGS and grants arrive on an idle connection, uploads start later
 	}
 	depth := 3
 	if thorough {
